@@ -23,7 +23,16 @@ type RowFmtPackage struct {
 
 // ReadFrom implements the tds.Package interface.
 func (pkg *RowFmtPackage) ReadFrom(ch BytesChannel) error {
-	totalLength, err := ch.Uint32()
+	// TDS_ROWFMT has a two byte length, TDS_ROWFMT2 a four byte length
+	var totalLength uint32
+	var err error
+	if pkg.wide {
+		totalLength, err = ch.Uint32()
+	} else {
+		var length uint16
+		length, err = ch.Uint16()
+		totalLength = uint32(length)
+	}
 	if err != nil {
 		return ErrNotEnoughBytes
 	}
